@@ -17,7 +17,7 @@ from props import c11_gen, c11_export as X, c11_progs, c11_cbfam
 # C11-codeblock-accesses-ignored in known_findings.d/C11.json back to "finding".
 # Once fixes/C11-inquiry-codeblock.patch is applied to /repo: set this to "fixed5" and the status of the entry
 # C11-inquiry-codeblock-subscripts to "fixed-by-patch".
-MODEL_RULE = "fixed"
+MODEL_RULE = os.environ.get("C11_MODEL_RULE", "fixed")      # (the variable only serves to try a fix candidate)
 
 
 # ---------------------------------------------------------------------------
@@ -204,7 +204,7 @@ def check_items(chk, items, stats):
             if not o.startswith("("):
                 raise common.Infra("C11 trace: " + o)
             it.traces.append((what, common.parse_sx(o)))
-    nviol = 0
+    nviol, nper = 0, {}
     for it in items:
         if it.sx is None:
             continue
@@ -218,7 +218,7 @@ def check_items(chk, items, stats):
             stats["refusals"] = stats.get("refusals", 0) + 1
         if it.traces:
             stats["traced"] = stats.get("traced", 0) + 1
-        text = stmt_text(it.node)
+        text = it.origin["text"] if "text" in it.origin else stmt_text(it.node)   # (the writer copies the whole tree)
         nontriv = it.real[0] != "raise" and not isinstance(it.real[0], str) and len(it.real[0]) >= 2
         chk.case({"stmt": text, "real": real_c}, nontrivial=nontriv, agreed=agreed)
         fails = property_failures(it, names_by_id)
@@ -230,9 +230,11 @@ def check_items(chk, items, stats):
                 stats["known_class_hits"][cls] += 1
             else:
                 new.append((kind_f, mr, mw, detail))
-        if new and nviol < 3:
+        new.sort(key=lambda f: f[0] != "gfortran-execution")      # a really executed write first
+        if new and nper.get(new[0][0] == "gfortran-execution", 0) < 2:
             kind_f, mr, mw, detail = new[0]
             nviol += 1
+            nper[kind_f == "gfortran-execution"] = nper.get(kind_f == "gfortran-execution", 0) + 1
             if it.origin.get("family") == "exec":
                 it.origin, it.idx = reduced_family_origin(it)
             chk.violation({"kind": "failing-input", "origin": it.origin, "stmt_index": it.idx, "stmt": text,
